@@ -16,6 +16,7 @@ func c06Opts(rt *rapid.T, fallible bool) gen.Opts {
 		SamePkg:       rapid.IntRange(0, 3).Draw(rt, "samepkg") == 0,
 		FieldSettings: rapid.Bool().Draw(rt, "fieldsettings"),
 		Flags:         rapid.Bool().Draw(rt, "flags"),
+		SkipCopy:      rapid.IntRange(0, 2).Draw(rt, "skipcopy") == 0,
 		Custom:        true,
 		Fallible:      fallible,
 		Contexts:      3,
